@@ -451,12 +451,26 @@ def prune_dataflow_cache(world: World):
     if not world.use_cache:
         return
     min_cache_time = min(s.last_step.time for s in world.sims.values())
+    # A time-shifted consumer reads further back than its step time.
+    max_shift = max(
+        (
+            delay.tiers[0]
+            for s in world.sims.values()
+            for _, delay in s.pulled_inputs
+        ),
+        default=0,
+    )
+    bound = min_cache_time - max_shift
     for sim in world.sims.values():
         if sim.outputs:
+            # get_output_for returns the newest entry that is not newer
+            # than the requested time, so the newest entry up to the
+            # bound is still needed; only what is older can go.
+            keep_from = max((t for t in sim.outputs if t <= bound), default=bound)
             sim.outputs = {
                 time: cache
                 for time, cache in sim.outputs.items()
-                if time >= min_cache_time
+                if time >= keep_from
             }
 
 
